@@ -1194,6 +1194,39 @@ def m_unique_needless_qualifier(s, rng):
     return Fault("needless-qualifier", s, [("UNIQUE_QUAL_REDECL", [a.name, e.name])], verdict="accept", warn=True)
 
 
+def m_unique_after_needless_qualifier(s, rng):
+    """VALID: a UNIQUE rule qualifies a redeclared attribute (`SELF\\sup.a`, only a warning) and a LATER rule names another attribute
+    without a qualifier — every reference is looked up on its own; nothing of the first may leak into the second"""
+    c = [(e, a) for e in s.entities() for a in e.attrs if a.redecl_of]
+    if not c:
+        # make one: redeclare an inherited explicit attribute
+        cand = []
+        for e in s.entities():
+            for an in sorted(_ancestors(s, e)):
+                x = s.find(an)
+                if isinstance(x, Entity):
+                    cand += [(e, x, a) for a in x.attrs if a.inverse_for is None and a.redecl_of is None and a.bound is None
+                             and not any(b.name == a.name for b in e.attrs)]
+        if not cand:
+            return None
+        e, x, a0 = rng.choice(cand)
+        a = Attr(a0.name, a0.ty, redecl_of=x.name)
+        e.attrs.insert(len([y for y in e.attrs if y.inverse_for is None]), a)
+    else:
+        e, a = rng.choice(c)
+    others = [b for b in e.attrs if b.inverse_for is None and b.name != a.name]
+    if not others:
+        b = Attr(f"a_{e.name}_u", ("S", "INTEGER"))
+        e.attrs.insert(0, b)
+        others = [b]
+    k = len(e.uniques)
+    e.uniques.append(Unique(f"ur{k}", a.redecl_of, a.name))
+    e.uniques.append(Unique(f"ur{k + 1}", None, rng.choice(others).name))
+    return Fault("needless-qualifier-then-unique", s, [("UNIQUE_QUAL_REDECL", [a.name, e.name])], verdict="accept", warn=True,
+                 note=f"UNIQUE SELF\\{a.redecl_of}.{a.name} (redeclared in {e.name}) followed by an unqualified reference")
+
+
+MUTATORS["unique_after_needless_qualifier"] = m_unique_after_needless_qualifier
 MUTATORS["unique_unknown_attr"] = m_unique_unknown_attr
 MUTATORS["unique_unknown_qualified_attr"] = m_unique_unknown_qualified_attr
 MUTATORS["unique_unknown_supertype"] = m_unique_unknown_supertype
